@@ -21,6 +21,7 @@ package main
 
 import (
 	"bytes"
+	"context"
 	"crypto/aes"
 	crand "crypto/rand"
 	"crypto/rsa"
@@ -31,10 +32,14 @@ import (
 	"math/big"
 	mrand "math/rand"
 	"net"
+	"os"
+	"reflect"
 	"runtime"
 	"strings"
 	"sync"
+	"syscall"
 	"time"
+	"unsafe"
 
 	"github.com/xelaj/errs"
 	"github.com/xelaj/mtproto"
@@ -240,6 +245,10 @@ type hsSecrets struct {
 	Minimal     bool     // send dh_prime / g_a without leading zero bytes instead of as 256 bytes
 	ExtraFps    []uint64 // further fingerprints offered in front of the right one
 	LaterFps    []uint64 // further fingerprints offered after the right one
+	// Fault: 0 = conformant. 1, 2, 3: the reply of that step (resPQ, server_DH_params_ok, dh_gen_ok) leaves with ONE
+	// bit wrong - in nonce, in server_nonce, in new_nonce_hash1 -, everything else as the conformant server does it:
+	// a server that misbehaves once (hsFaulty). Used for the exchanges that PRECEDE the judged one on a client object.
+	Fault int
 }
 
 // offered: the fingerprints this server lists in resPQ — its key's own, those of other keys around it
@@ -522,6 +531,9 @@ type hsServer struct {
 	encSeen chan struct{}
 	connEnd chan struct{}
 	msgSeq  uint64
+	mute    bool   // the script is over: frames are still logged, nothing is answered any more
+	addr    string // set by hsReserve
+	fd      int    // hsReserve: the bound socket that does not listen yet (-1 once it does)
 }
 
 func hsListen() *hsServer {
@@ -529,12 +541,96 @@ func hsListen() *hsServer {
 	if err != nil {
 		panic(err)
 	}
-	s := &hsServer{ln: ln}
+	s := &hsServer{ln: ln, fd: -1}
 	go s.acceptLoop()
 	return s
 }
 
-func (s *hsServer) Addr() string { return s.ln.Addr().String() }
+// hsReserve: a server that is NOT UP yet. Its address is taken (a TCP socket bound to a loopback port, so that no
+// other process can get the port meanwhile) but nobody listens: a client that dials it is refused, like one that
+// was started before its server. up() makes the same socket listen.
+func hsReserve() *hsServer {
+	fd, err := syscall.Socket(syscall.AF_INET, syscall.SOCK_STREAM, 0)
+	if err != nil {
+		panic(err)
+	}
+	_ = syscall.SetsockoptInt(fd, syscall.SOL_SOCKET, syscall.SO_REUSEADDR, 1)
+	if err := syscall.Bind(fd, &syscall.SockaddrInet4{Addr: [4]byte{127, 0, 0, 1}}); err != nil {
+		syscall.Close(fd)
+		panic(err)
+	}
+	sa, err := syscall.Getsockname(fd)
+	if err != nil {
+		syscall.Close(fd)
+		panic(err)
+	}
+	return &hsServer{fd: fd, addr: fmt.Sprintf("127.0.0.1:%d", sa.(*syscall.SockaddrInet4).Port)}
+}
+
+// up: the reserved server starts listening (no-op when it already does).
+func (s *hsServer) up() {
+	if s.ln != nil {
+		return
+	}
+	if err := syscall.Listen(s.fd, 128); err != nil {
+		panic(err)
+	}
+	f := os.NewFile(uintptr(s.fd), "hs-listener")
+	ln, err := net.FileListener(f)
+	f.Close()
+	if err != nil {
+		panic(err)
+	}
+	s.ln, s.fd = ln, -1
+	go s.acceptLoop()
+}
+
+func (s *hsServer) Addr() string {
+	if s.ln == nil {
+		return s.addr
+	}
+	return s.ln.Addr().String()
+}
+
+// rearm: the server's next script (for the connections accepted from now on), with a log of its own; the
+// channels of the first arm stay (a connection reports its end to the channel the teardown waits on).
+func (s *hsServer) rearm(secrets *hsSecrets, replies [][]byte) *hsSrvResult {
+	s.mu.Lock()
+	defer s.mu.Unlock()
+	s.res = &hsSrvResult{}
+	s.secrets = secrets
+	s.replies = replies
+	if s.encSeen == nil {
+		s.encSeen = make(chan struct{}, 16)
+		s.connEnd = make(chan struct{}, 16)
+	}
+	return s.res
+}
+
+func (s *hsServer) setMute(v bool) {
+	s.mu.Lock()
+	s.mute = v
+	s.mu.Unlock()
+}
+
+// seen: frames logged so far (unencrypted, encrypted) in the current log
+func (s *hsServer) seen() (int, int) {
+	s.mu.Lock()
+	defer s.mu.Unlock()
+	return len(s.res.Plain), len(s.res.Enc)
+}
+
+// hsFaulty: the reply of step `stage` with one bit wrong: resPQ.nonce, server_DH_params_ok.server_nonce,
+// dh_gen_ok.new_nonce_hash1 (every reply of the exchange starts id, nonce, server_nonce).
+func hsFaulty(reply []byte, stage int) []byte {
+	off := map[int]int{1: 4, 2: 20, 3: 36}[stage]
+	if off == 0 || len(reply) <= off {
+		return reply
+	}
+	out := append([]byte{}, reply...)
+	out[off] ^= 1
+	return out
+}
 
 // arm prepares the server for one exchange.
 func (s *hsServer) arm(secrets *hsSecrets, replies [][]byte) *hsSrvResult {
@@ -558,7 +654,15 @@ func (s *hsServer) closeConns() {
 	}
 }
 
-func (s *hsServer) Close() { s.ln.Close(); s.closeConns() }
+func (s *hsServer) Close() {
+	if s.ln != nil {
+		s.ln.Close()
+	} else if s.fd >= 0 {
+		syscall.Close(s.fd)
+		s.fd = -1
+	}
+	s.closeConns()
+}
 
 func (s *hsServer) acceptLoop() {
 	for {
@@ -655,6 +759,12 @@ func (s *hsServer) serve(c net.Conn, res *hsSrvResult, sec *hsSecrets, replies [
 		res.Plain = append(res.Plain, append([]byte{}, body...))
 		s.mu.Unlock()
 		nPlain++
+		s.mu.Lock()
+		mute := s.mute
+		s.mu.Unlock()
+		if mute {
+			continue
+		}
 		if replies != nil {
 			if nPlain <= len(replies) {
 				s.sendPlain(c, replies[nPlain-1])
@@ -662,6 +772,9 @@ func (s *hsServer) serve(c net.Conn, res *hsSrvResult, sec *hsSecrets, replies [
 			continue
 		}
 		reply, why := st.handle(body)
+		if reply != nil && sec.Fault != 0 && sec.Fault == st.stage {
+			reply = hsFaulty(reply, st.stage)
+		}
 		s.mu.Lock()
 		if why != "" && res.Reject == "" {
 			res.Reject = why
@@ -911,6 +1024,11 @@ type hsRun struct {
 	FirstEnc string // "" not attempted; "readable:<body hex>" / why not
 	EncEarly int    // encrypted frames the server had seen when CreateConnection returned (or hung)
 	Addr     string
+	// history runs (hsPlan)
+	Pre, Post  []string // "<step>:<outcome>" of the steps before / after the judged exchange
+	PlainEarly int      // unencrypted frames the server had seen when CreateConnection returned (or hung)
+	After      []string // what the application did after an abandoned exchange ("req", "retry:<outcome>")
+	EncLate    bool     // the client's encrypted flag after that
 }
 
 // hsErrClass maps makeAuthKey's error to a small enum (by the fixed text of the error site).
@@ -1015,11 +1133,169 @@ func hsExchange(d *hsDraws, pub *rsa.PublicKey, secrets *hsSecrets, replies [][]
 
 // hsExchangeOn: the same with a session store that says "nothing stored" in the given way (hsStore.Mode).
 func hsExchangeOn(storeMode string, d *hsDraws, pub *rsa.PublicKey, secrets *hsSecrets, replies [][]byte, probe bool) *hsRun {
-	srv := hsListen()
+	return hsExchangePlan(&hsPlan{StoreMode: storeMode, D: d, Pub: pub, Secrets: secrets, Replies: replies, Probe: probe})
+}
+
+// hsPlan: everything the application does with ONE client object (one mtproto.NewMTProto) in one run. The JUDGED
+// exchange is the CreateConnection whose draws are D, against a server armed with Secrets (conformant) or Replies
+// (replay). Around it:
+//
+// Pre - what happened on the object before (the history of the client value):
+//
+//	dial     a CreateConnection while the server is not up yet (its address is reserved, nobody listens: the dial
+//	         is refused). Only before the server has been up.
+//	disc     Disconnect
+//	fail1 fail2 fail3
+//	         a CreateConnection against a server that misbehaves ONCE, at that step of the exchange (hsSecrets.Fault):
+//	         the client has to give the exchange up
+//
+// Post - what the application does on the object after the judged exchange has returned, before its first request:
+//
+//	reconnect   Reconnect
+//	disc        Disconnect
+//	create      CreateConnection
+//
+// After - what the application does after a judged exchange that did NOT succeed (C07: the client side of the
+// aftermath; everything the client writes is logged by the server, which answers nothing any more):
+//
+//	req      one request (ping) through MakeRequest on the same object
+//	retry    a second CreateConnection on the same object (the replay server plays its script again on the new
+//	         connection), then one request
+type hsPlan struct {
+	StoreMode string
+	D         *hsDraws
+	Pub       *rsa.PublicKey
+	Secrets   *hsSecrets
+	Replies   [][]byte
+	Probe     bool
+	Pre, Post []string
+	After     string
+}
+
+var (
+	hsPreSteps  = []string{"dial", "disc", "fail1", "fail2", "fail3"}
+	hsPostSteps = []string{"reconnect", "disc", "create"}
+)
+
+// hsHistoryOk: the rules of a history. `dial` only while the server has not been up (no failK before it); the first
+// step is not `disc` (nothing to disconnect: the application has not connected yet); after the judged exchange
+// `create` only directly after `disc`, and the last step leaves the client connected.
+func hsHistoryOk(pre, post []string) bool {
+	if len(pre) > 6 || len(post) > 4 {
+		return false
+	}
+	up := false
+	for i, st := range pre {
+		switch st {
+		case "dial":
+			if up {
+				return false
+			}
+		case "disc":
+			if i == 0 {
+				return false
+			}
+		case "fail1", "fail2", "fail3":
+			up = true
+		default:
+			return false
+		}
+	}
+	for i, st := range post {
+		switch st {
+		case "reconnect":
+			if i > 0 && post[i-1] == "disc" {
+				return false
+			}
+		case "disc":
+			if i > 0 && post[i-1] == "disc" {
+				return false
+			}
+		case "create":
+			if i == 0 || post[i-1] != "disc" {
+				return false
+			}
+		default:
+			return false
+		}
+	}
+	return len(post) == 0 || post[len(post)-1] != "disc"
+}
+
+// hsCall: one call of the application on the client, on a goroutine of its own with recover and the watchdog.
+func hsCall(f func() error) (outcome, text string) {
+	type result struct {
+		err error
+		pan string
+	}
+	done := make(chan result, 1)
+	go func() {
+		var r result
+		defer func() {
+			if p := recover(); p != nil {
+				r.pan = hsPanicSite()
+			}
+			done <- r
+		}()
+		r.err = f()
+	}()
+	select {
+	case r := <-done:
+		switch {
+		case r.pan != "":
+			return "panic:" + r.pan, ""
+		case r.err != nil:
+			return "err:" + hsErrClass(r.err), r.err.Error()
+		}
+		return "ok", ""
+	case <-time.After(hsWatchdog):
+		return "hang", ""
+	}
+}
+
+// hsStopHandle: the handle with which the routines the last CreateConnection started can be stopped (the private
+// field MTProto.stopRoutines; nil when it cannot be read). The application has no access to it, and a
+// CreateConnection that follows another one without a Disconnect in between overwrites it: the readers of the
+// earlier connection can then be stopped by nobody. The harness keeps the handle for its TEARDOWN only (a reader
+// that is left behind spins once its connection is gone); nothing observed depends on it.
+func hsStopHandle(m *mtproto.MTProto) (stop func()) {
+	defer func() {
+		if recover() != nil {
+			stop = nil
+		}
+	}()
+	f := reflect.ValueOf(m).Elem().FieldByName("stopRoutines")
+	if !f.IsValid() || f.Kind() != reflect.Func || f.IsNil() {
+		return nil
+	}
+	switch c := reflect.NewAt(f.Type(), unsafe.Pointer(f.UnsafeAddr())).Elem().Interface().(type) {
+	case context.CancelFunc:
+		return c
+	case func():
+		return c
+	}
+	return nil
+}
+
+func hsPing(m *mtproto.MTProto) {
+	go func() {
+		defer func() { _ = recover() }()
+		_, _ = m.MakeRequest(&objects.PingParams{PingID: 0x0123456789abcdef})
+	}()
+}
+
+func hsExchangePlan(p *hsPlan) *hsRun {
+	d, secrets, replies := p.D, p.Secrets, p.Replies
+	var srv *hsServer
+	if len(p.Pre) > 0 {
+		srv = hsReserve()
+	} else {
+		srv = hsListen()
+	}
 	run := &hsRun{Addr: srv.Addr()}
 	run.Srv = srv.arm(secrets, replies)
-	store := &hsStore{Mode: storeMode}
-	m, err := mtproto.NewMTProto(mtproto.Config{SessionStorage: store, ServerHost: srv.Addr(), PublicKey: pub})
+	store := &hsStore{Mode: p.StoreMode}
+	m, err := mtproto.NewMTProto(mtproto.Config{SessionStorage: store, ServerHost: srv.Addr(), PublicKey: p.Pub})
 	if err != nil {
 		// no client: nothing was sent, nothing can have been stored
 		run.Outcome = "err:new"
@@ -1050,6 +1326,44 @@ func hsExchangeOn(storeMode string, d *hsDraws, pub *rsa.PublicKey, secrets *hsS
 			drain()
 		}
 	}
+
+	// the history of the client object. A connection attempt that is followed by another one without a Disconnect
+	// in between leaves its routines behind (orphans: stopped at the teardown, see hsStopHandle).
+	var orphans []func()
+	var pending func() // the stop handle of the last attempt, not yet disconnected
+	attempt := func(f func() error) (string, string) {
+		if pending != nil {
+			orphans = append(orphans, pending)
+		}
+		o, t := hsCall(f)
+		pending = hsStopHandle(m)
+		return o, t
+	}
+	for _, st := range p.Pre {
+		var o string
+		switch st {
+		case "dial":
+			o, _ = attempt(m.CreateConnection)
+			pending = nil // nothing was started
+		case "disc":
+			o, _ = hsCall(m.Disconnect)
+			pending = nil
+		case "fail1", "fail2", "fail3":
+			sec := *secrets
+			sec.Fault = int(st[4] - '0')
+			srv.rearm(&sec, nil)
+			srv.up()
+			o, _ = attempt(m.CreateConnection)
+		default:
+			o = "bad-step"
+		}
+		run.Pre = append(run.Pre, st+":"+o)
+	}
+	if len(p.Pre) > 0 {
+		run.Srv = srv.rearm(secrets, replies)
+		srv.up()
+	}
+
 	// crypto/rand.Int(Reader, 2^2048) reads exactly 256 bytes and takes them as the big-endian value
 	stream := append(append(append([]byte{}, d.Nonce...), d.NewNonce...), d.B...)
 	rdr := &hsReader{buf: stream}
@@ -1059,35 +1373,7 @@ func hsExchangeOn(storeMode string, d *hsDraws, pub *rsa.PublicKey, secrets *hsS
 	old := crand.Reader
 	crand.Reader = rdr
 	mrand.Seed(d.PadSeed)
-	type result struct {
-		err error
-		pan string
-	}
-	done := make(chan result, 1)
-	go func() {
-		var r result
-		defer func() {
-			if p := recover(); p != nil {
-				r.pan = hsPanicSite()
-			}
-			done <- r
-		}()
-		r.err = m.CreateConnection()
-	}()
-	select {
-	case r := <-done:
-		switch {
-		case r.pan != "":
-			run.Outcome = "panic:" + r.pan
-		case r.err != nil:
-			run.Outcome = "err:" + hsErrClass(r.err)
-			run.ErrText = r.err.Error()
-		default:
-			run.Outcome = "ok"
-		}
-	case <-time.After(hsWatchdog):
-		run.Outcome = "hang"
-	}
+	run.Outcome, run.ErrText = attempt(m.CreateConnection)
 	drain()
 	crand.Reader = old
 	hsRandMu.Unlock()
@@ -1097,21 +1383,66 @@ func hsExchangeOn(storeMode string, d *hsDraws, pub *rsa.PublicKey, secrets *hsS
 
 	srv.mu.Lock()
 	run.EncEarly = len(run.Srv.Enc)
+	run.PlainEarly = len(run.Srv.Plain)
 	srv.mu.Unlock()
+
+	if run.Outcome == "ok" {
+		for _, st := range p.Post {
+			var o string
+			switch st {
+			case "reconnect":
+				o, _ = hsCall(m.Reconnect)
+				pending = hsStopHandle(m)
+			case "disc":
+				o, _ = hsCall(m.Disconnect)
+				pending = nil
+			case "create":
+				o, _ = attempt(m.CreateConnection)
+			default:
+				o = "bad-step"
+			}
+			run.Post = append(run.Post, st+":"+o)
+		}
+	}
+
 	run.AuthKey = append([]byte{}, m.GetAuthKey()...)
 	run.Salt = m.GetServerSalt()
 	run.Enc = m.VerifEncrypted()
 	run.Svc = m.VerifServiceMode()
 
-	if probe && run.Outcome == "ok" {
-		go func() {
-			defer func() { _ = recover() }()
-			_, _ = m.MakeRequest(&objects.PingParams{PingID: 0x0123456789abcdef})
-		}()
+	if p.Probe && run.Outcome == "ok" {
+		hsPing(m)
 		select {
 		case <-run.Srv.encSeenChan(srv):
 		case <-time.After(3 * time.Second):
 		}
+	}
+	if p.After != "" && strings.HasPrefix(run.Outcome, "err:") {
+		// the application goes on using the object whose key exchange was abandoned. The server's script is over:
+		// it answers nothing any more (except to a retry's exchange), it only logs what arrives.
+		request := func() {
+			np, ne := srv.seen()
+			srv.setMute(true)
+			hsPing(m)
+			for t0 := time.Now(); time.Since(t0) < time.Second; time.Sleep(2 * time.Millisecond) {
+				if p2, e2 := srv.seen(); p2+e2 > np+ne {
+					break
+				}
+			}
+			srv.setMute(false)
+		}
+		switch p.After {
+		case "req":
+			request()
+			run.After = append(run.After, "req")
+		case "retry":
+			o, _ := attempt(m.CreateConnection)
+			run.After = append(run.After, "retry:"+o)
+			request()
+			run.After = append(run.After, "req")
+		}
+		time.Sleep(5 * time.Millisecond)
+		run.EncLate = m.VerifEncrypted()
 	}
 	aftermath := hsAftermath && (strings.HasPrefix(run.Outcome, "err:") || run.Outcome == "hang")
 	if aftermath {
@@ -1141,7 +1472,13 @@ func hsExchangeOn(storeMode string, d *hsDraws, pub *rsa.PublicKey, secrets *hsS
 	// is closed first (so that the reconnect the client's loop attempts on EOF fails and the loop
 	// ends), then each connection is half-closed (the client reads EOF; nothing it sent is discarded,
 	// so no reset), and the server keeps reading until the client has closed its side.
+	// (Routines left behind by the history are stopped first, through their own handle: their connection closes,
+	// their reader ends with the cancellation.)
+	srv.up()
 	srv.ln.Close()
+	for _, stop := range orphans {
+		stop()
+	}
 	srv.mu.Lock()
 	end := srv.connEnd
 	cs := append([]net.Conn{}, srv.conns...)
@@ -1204,7 +1541,10 @@ func hsShowStores(st []session.Session, addr string) string {
 // hsResultLine: the canonical result of one exchange as both sides of the correspondence print it.
 func hsResultLine(run *hsRun) string {
 	var fr []string
-	for _, f := range run.Srv.Plain {
+	for i, f := range run.Srv.Plain {
+		if len(run.After) > 0 && i >= run.PlainEarly {
+			break // what the application sent after the exchange was abandoned is the oracle's, not the exchange's
+		}
 		fr = append(fr, showBytes(f))
 	}
 	return fmt.Sprintf("res=%s frames=%s encframes=%d key=%s salt=%d enc=%v svc=%v stored=%s",
